@@ -1803,6 +1803,8 @@ func checkC20(w *World, r *Report) {
 		return
 	}
 	c20EntryRules(w, r, e, callFn)
+	recoverDirectRule(w, r, "C20.recover-direct")
+	constFormatRule(w, r, "C20.const-format")
 	argsCtx, args := w.Fn("lib/call", "_args_ctx"), w.Fn("lib/call", "_args")
 	nilnil, nilerr, reserr := w.Fn("lib/call", "_nil_nil"), w.Fn("lib/call", "_nil_error"), w.Fn("lib/call", "_result_error")
 	recov := w.Fn("lib/call", "_recover")
@@ -3594,4 +3596,41 @@ func freshOrNil(v ssa.Value, depth int) bool {
 		return len(x.Edges) > 0
 	}
 	return false
+}
+
+// constFormatRule: the format operand of every fmt formatting call in the library is a constant: data spliced
+// into the format is interpreted (a per-cent sign in a value or a name eats the operands, %w loses its error).
+func constFormatRule(w *World, r *Report, rule string) {
+	r.rule(rule, "every fmt.Errorf / Sprintf / Fprintf / Printf in the library has a constant format string: names and values go into operands, never into the format, where a per-cent sign in them would be interpreted (operands consumed, %w left without its error)")
+	n := 0
+	for _, fn := range w.Funcs {
+		if isTestFunc(w, fn) || !libraryPkg(fnPkgPath(fn)) {
+			continue
+		}
+		for _, b := range fn.Blocks {
+			for _, in := range b.Instrs {
+				c, ok := in.(*ssa.Call)
+				if !ok || c.Call.StaticCallee() == nil || fnPkgPath(c.Call.StaticCallee()) != "fmt" {
+					continue
+				}
+				idx := -1
+				switch c.Call.StaticCallee().Name() {
+				case "Errorf", "Sprintf", "Printf":
+					idx = 0
+				case "Fprintf":
+					idx = 1
+				}
+				if idx < 0 || idx >= len(c.Call.Args) {
+					continue
+				}
+				n++
+				_, isConst := constString(c.Call.Args[idx])
+				if _, isParam := c.Call.Args[idx].(*ssa.Parameter); isParam {
+					isConst = true // a formatting function: the format is its caller's
+				}
+				r.check(isConst, rule, fn, "format of fmt."+c.Call.StaticCallee().Name(), c.Pos(), "constant", "the format string is computed ("+describeVal(nil, c.Call.Args[idx], 0)+"): a per-cent sign in the spliced text is interpreted as a verb")
+			}
+		}
+	}
+	r.floor(rule, "fmt formatting calls in the library", n, 20)
 }
